@@ -63,6 +63,7 @@ S["C07"] = dict(title="Inbound acknowledgements go out only after the applicatio
 S["C02"] = dict(title="Restart resumes exactly the unacknowledged set, at any stop point, repeatedly", technique=TECH+"; AdoptSession run on an arbitrary store content a stop can leave (ring positions, storage sequence numbers and List order free), observed through resend, two generations", harnesses=[
     H("verifH_C02_adopt", "adopt an arbitrary PINV store -> observe; publish; stop; adopt again -> observe", T({"shapes":6}), T({"shapes":10}, time_sec=2400), ("adopted","adopted-twice","drained","adopted-twice-pubrec")),
     _compose,
+    H("verifH_C02_crash", "crash points of the running process: stop right before each Persistence mutation of accept / PUBACK / PUBREC / PUBCOMP (or after the last); AdoptSession must resume the pending set as before or as after the operation, without warnings, completable", T({"W":2,"maxops":3}), T({"W":3,"maxops":4}, time_sec=2400), ("stopped-mid-operation","stopped-after-operation","end")),
   ],
   assumptions=["PINV (DESIGN 4.1): what a stop can leave is one contiguous run per kind (QoS1 PUBLISH, PUBREL, QoS2 PUBLISH), the PUBREL run directly before the QoS2 PUBLISH run, storage sequence numbers ascending within a run; that every operation re-establishes it is shown by the C01 harnesses (the record written/deleted per operation) — paper step",
     "the store honours the Persistence contract (FileSystem's adherence under stops is C19)", "sort.Slice is modelled as insertion sort calling the real less closure"],
